@@ -831,13 +831,19 @@ class Node:
             self._reconnect_peers()
 
     def _receive_message(self, conn: PeerConnection, msg: _AnyMessageType):
-        if msg.header.is_request and hasattr(msg, "origin_host"):
+        origin_host = getattr(msg, "origin_host", None)
+        if not isinstance(origin_host, bytes):
+            # absent, or repeated in a message without a python class (the
+            # attribute is a list then): cannot be tracked
+            origin_host = None
+
+        if msg.header.is_request and origin_host is not None:
             # Record who originally sent a request, as this information is lost
             # by the time an answer will go out
             message_id = (f"{msg.header.hop_by_hop_identifier}:"
                           f"{msg.header.end_to_end_identifier}")
             self._origin_waiting_answer[message_id] = (
-                msg.origin_host, time.time())
+                origin_host, time.time())
 
         peer = self._find_connection_peer(conn)
         if peer:
@@ -855,10 +861,10 @@ class Node:
                 return
 
         # rfc6733, 5.5.4, check for T flag and reject if already processed
-        if (hasattr(msg, "origin_host") and msg.header.is_request and
+        if (origin_host is not None and msg.header.is_request and
                 msg.header.is_retransmit and
-                msg.origin_host in self._sent_answers and
-                msg.header.end_to_end_identifier in self._sent_answers[msg.origin_host]):
+                origin_host in self._sent_answers and
+                msg.header.end_to_end_identifier in self._sent_answers[origin_host]):
             self.logger.warning(
                 f"{conn} message is a retransmission of an already handled "
                 f"request, rejecting it")
